@@ -7,7 +7,8 @@ ID = 'C02'
 TARGETS = ['SmppVerif.Props.C02']
 RULE = ('histories: plain and segmented (2..5) submits accepted under SMSC message ids, then receipts in any order '
         '(relative to each other and to the remaining submit responses) with error codes 0 / >0, id in the text or in '
-        'receipted_message_id, duplicate and unknown ids; one model line per operation plus dumps. '
+        'receipted_message_id, duplicate and unknown ids, ids in mixed letter case and ids of different messages differing in '
+        'letter case only; one model line per operation plus dumps. '
         'distinct-nontrivial = distinct (message shapes, any failing receipt?, receipts-before-last-response?, id '
         'conveyed by TLV?, duplicates?, unknown ids?)')
 TRUSTED = ['Lean 4.33.0 kernel', 'axioms: propext, Quot.sound, Classical.choice',
@@ -26,11 +27,16 @@ def history(rng, msgs, via_tlv, dup, unknown, label='mix'):
         seqno = 0
         ops = []
         ids = {}
+        collide = len(msgs) > 1 and rng.random() < 0.35
+        style = [rng.randrange(4) for _ in msgs]
         for mi, m in enumerate(msgs):
             for si in range(m['nseg']):
                 seqno += 1
                 ops.append(('put', mi, si, seqno))
-                ids[(mi, si)] = 'M%dS%d' % (m['log'], si)
+                # SMSC message ids are opaque strings: mixed letter case, and (collide) ids of different messages that
+                # differ in letter case only
+                num = (1000 + mi // 2) if collide else m['log']
+                ids[(mi, si)] = (('M%dS%d', 'Ab%dCd%d', 'aB%dcD%d', 'm%ds%d')[(mi % 2 + 1) if collide else style[mi]]) % (num, si)
         resp_ops = []
         rcpt_ops = []
         sq = 0
@@ -113,7 +119,7 @@ def history(rng, msgs, via_tlv, dup, unknown, label='mix'):
             if lg not in {m['log'] for m in msgs} and fail is None:
                 fail = 'a receipt carries log_id L%d which no message has' % lg
         sig = (label, tuple(sorted(m['nseg'] for m in msgs))[:3], any(any(m['errs']) for m in msgs), early, via_tlv,
-               dup, unknown)
+               dup, unknown, collide)
         cases.append(Case(ln, out, sig, fail, {'op': 'history', 'label': label, 'lines': [c.line for c in cases[1:]]}))
     finally:
         sim.close()
